@@ -37,6 +37,7 @@ int rp_connect_tcp(rp *p, int port);
 // listening side for nng dialers
 int rp_listen_ipc(const char *path);               // returns listening fd
 int rp_listen_tcp(int *port);                      // returns listening fd, picks a free port
+int rp_listen_tcp_port(int port);                  // listen again on a known port: fd or -1
 int rp_accept(rp *p, int lfd, int kind);           // non-blocking accept: 0 ok, -1 nothing pending
 void rp_close(rp *p);                              // close our end
 void rp_shutdown_wr(rp *p);                        // orderly FIN, keep reading
